@@ -251,6 +251,20 @@ func ruleP01ErrFlow(p *Prog, r *Report) {
 				if reaches(x.(ssa.Value), depth+1) {
 					return true
 				}
+			case *ssa.Call:
+				// handed to a local function (`report(err)`): on from its parameter
+				for g, sites := range sg.sites {
+					for _, s := range sites {
+						if s != x {
+							continue
+						}
+						for i, a := range x.Call.Args {
+							if a == v && i < len(g.Params) && reaches(g.Params[i], depth+1) {
+								return true
+							}
+						}
+					}
+				}
 			}
 		}
 		return false
@@ -752,6 +766,22 @@ func ruleP16Order(p *Prog, r *Report) {
 			if ok && !good && c.op == token.EQL && bo.Op == token.EQL {
 				good = isOffsetOf(bo.Y, m.Params[0]) && isOffsetOf(bo.X, m.Params[1])
 			}
+			if !good {
+				// written through a three-way comparison (or otherwise): evaluated for the three
+				// possible orders of the two offsets
+				all := true
+				for _, sg := range []int64{-1, 0, 1} {
+					v, okS := simTimeCmp(m, m.Params[0], m.Params[1], sg, 0)
+					want := int64(0)
+					if (c.op == token.GEQ && sg >= 0) || (c.op == token.EQL && sg == 0) {
+						want = 1
+					}
+					if !okS || v != want {
+						all = false
+					}
+				}
+				good = all
+			}
 			r.check(good, rule, "time."+c.name, p.instrPos(ret), c.name+" compares both midnight offsets (day shift included) with "+c.op.String(), "time."+c.name+" does not compare the two MidnightOffset().InMinutes() values with "+c.op.String()+" (e.g. it ignores the day shift)")
 		}
 	}
@@ -931,6 +961,26 @@ func ruleP16Closed(p *Prog, r *Report) {
 					if n, _, _, _ := methodCall(g.Cond); n == "IsValid" && g.Pol {
 						ok = true
 					}
+				}
+				// or the same test written out: 0 <= hour <= 23 and 0 <= minute <= 59 for the
+				// very values that are stored
+				var hv, mv ssa.Value
+				for _, ref := range *a.Referrers() {
+					if fa, isFA := ref.(*ssa.FieldAddr); isFA {
+						for _, r2 := range *fa.Referrers() {
+							if st, isSt := r2.(*ssa.Store); isSt && st.Addr == ssa.Value(fa) {
+								switch fieldName(fa) {
+								case "hour":
+									hv = st.Val
+								case "minute":
+									mv = st.Val
+								}
+							}
+						}
+					}
+				}
+				if hv != nil && mv != nil && provenWithin(guardsOf(a.Block()), hv, 0, 23) && provenWithin(guardsOf(a.Block()), mv, 0, 59) {
+					ok = true
 				}
 			}
 		})
@@ -1345,6 +1395,31 @@ func ruleP16Plus(p *Prog, r *Report) {
 		}
 		r.check(!rejectsValid, rule, fmt.Sprintf("bounds:%s%d", bo.Op, k), p.instrPos(iff), "the range test rejects no result between the start of yesterday and the end of tomorrow", fmt.Sprintf("the range test (offset %s %d -> error) rejects a representable result", bo.Op, k))
 	}
+	// … and it refuses on nothing else: every error return of Plus is decided by tests of the
+	// resulting offset (a test of the operand — "no point in adding two days or more" — refuses
+	// sums that land inside the representable window, `<0:00` + 48h = `0:00>`)
+	for i, ret := range returnsOf(f) {
+		if len(ret.Results) != 2 || !isNilConst(retResult(ret, 0)) {
+			continue
+		}
+		if _, isCall := ret.Results[1].(*ssa.Extract); isCall {
+			continue // newTime's own verdict
+		}
+		other := ""
+		for _, g := range guardsOf(ret.Block()) {
+			bo, isCmp := normCmp(g.Cond)
+			if isCmp && base != nil && (sameValue(bo.X, base) || sameValue(bo.Y, base) || strip(bo.X) == strip(base) || strip(bo.Y) == strip(base)) {
+				continue
+			}
+			if ph, isPhi := g.Cond.(*ssa.Phi); isPhi {
+				if alts, okA := truthAlts(ph, 0); okA && len(alts) > 0 {
+					continue // the `a || b` of two offset tests; its atoms are in the list as well
+				}
+			}
+			other = g.Cond.String()
+		}
+		r.check(other == "", rule, fmt.Sprintf("refusal#%d", i), p.instrPos(ret), "the addition is refused on tests of the resulting offset only", "Time.Plus refuses the addition on a condition that is not a test of the resulting offset ("+other+"): sums that land between the start of yesterday and the end of tomorrow are refused")
+	}
 	_ = a
 }
 
@@ -1372,8 +1447,8 @@ func ruleP16Fold(p *Prog, r *Report) {
 	}
 	hour, minute, shift := f.Params[0], f.Params[1], f.Params[2]
 	// what newTime validates as the hour (civil.Time.Hour) and what it stores as the day shift
-	var hv, sv ssa.Value
-	var at ssa.Instruction
+	var hv, sv, hourStored ssa.Value
+	var at, hourAt ssa.Instruction
 	// (also where the validation sits in a private helper of newTime)
 	eachVInstr(f, func(in ssa.Instruction) {
 		st, ok := in.(*ssa.Store)
@@ -1389,8 +1464,14 @@ func ruleP16Fold(p *Prog, r *Report) {
 			hv, at = st.Val, st
 		case fieldName(fa) == "dayShift" && typeNameOf(fa.X.Type()) == "time":
 			sv = st.Val
+		case fieldName(fa) == "hour" && typeNameOf(fa.X.Type()) == "time":
+			hourStored, hourAt = st.Val, st
 		}
 	})
+	if hv == nil && hourStored != nil {
+		// validated by an explicit range test instead of civil.Time: the hour that is stored
+		hv, at = hourStored, hourAt
+	}
 	if hv == nil || sv == nil {
 		r.undecided(rule, "fold", p.pos(f.Pos()), "newTime does not build civil.Time{Hour: …} and time{dayShift: …}")
 		return
@@ -1493,4 +1574,215 @@ func remainingShape(d *Poly) (sgn int64, ok bool) {
 		return 0, false
 	}
 	return a, true
+}
+
+// provenWithin: the guards confine v to exactly lo..hi (comparisons of v with constants).
+func provenWithin(gs []Guard, v ssa.Value, lo, hi int64) bool {
+	gotLo, gotHi := false, false
+	for _, g := range gs {
+		bo, ok := normCmp(g.Cond)
+		if !ok {
+			continue
+		}
+		k, isK := constInt(bo.Y)
+		if !isK || !(sameValue(bo.X, v) || strip(bo.X) == strip(v)) {
+			continue
+		}
+		op := bo.Op
+		if !g.Pol {
+			inv := map[token.Token]token.Token{token.LSS: token.GEQ, token.GEQ: token.LSS, token.GTR: token.LEQ, token.LEQ: token.GTR}
+			o2, known := inv[op]
+			if !known {
+				continue
+			}
+			op = o2
+		}
+		switch {
+		case op == token.GEQ && k == lo, op == token.GTR && k == lo-1:
+			gotLo = true
+		case op == token.LEQ && k == hi, op == token.LSS && k == hi+1:
+			gotHi = true
+		}
+	}
+	return gotLo && gotHi
+}
+
+// simTimeCmp runs f — a function of two times a and b that answers with a bool (1/0) or an int —
+// under the assumption sign = sgn(offset(a) - offset(b)), where offset is
+// MidnightOffset().InMinutes(). Calls of module functions that are handed a and/or b are run the
+// same way. ok=false when something else than such comparisons, constants and calls decides.
+func simTimeCmp(f *ssa.Function, a, b ssa.Value, sign int64, depth int) (int64, bool) {
+	if depth > 3 || len(f.Blocks) == 0 {
+		return 0, false
+	}
+	unwrap := func(v ssa.Value) ssa.Value {
+		for i := 0; i < 6; i++ {
+			switch x := v.(type) {
+			case *ssa.MakeInterface:
+				v = x.X
+			case *ssa.ChangeInterface:
+				v = x.X
+			case *ssa.ChangeType:
+				v = x.X
+			default:
+				return v
+			}
+		}
+		return v
+	}
+	who := func(v ssa.Value) int { // 1 = a, 2 = b, 0 = neither
+		switch unwrap(v) {
+		case a:
+			return 1
+		case b:
+			return 2
+		}
+		return 0
+	}
+	offsetOf := func(v ssa.Value) int {
+		c, ok := v.(*ssa.Call)
+		if !ok {
+			return 0
+		}
+		n, recv, args, _ := methodCallOf(c)
+		if n != "InMinutes" || len(args) != 0 || recv == nil {
+			return 0
+		}
+		c2, ok := recv.(*ssa.Call)
+		if !ok {
+			return 0
+		}
+		n2, recv2, args2, _ := methodCallOf(c2)
+		if n2 != "MidnightOffset" || len(args2) != 0 || recv2 == nil {
+			return 0
+		}
+		return who(recv2)
+	}
+	phiVal := map[*ssa.Phi]ssa.Value{}
+	var eval func(v ssa.Value, d int) (int64, bool)
+	eval = func(v ssa.Value, d int) (int64, bool) {
+		if d > 10 {
+			return 0, false
+		}
+		if bv, isB := constBool(v); isB {
+			if bv {
+				return 1, true
+			}
+			return 0, true
+		}
+		if k, isK := constInt(v); isK {
+			return k, true
+		}
+		switch x := v.(type) {
+		case *ssa.UnOp:
+			if x.Op == token.NOT {
+				y, ok := eval(x.X, d+1)
+				return 1 - y, ok
+			}
+			if x.Op == token.SUB {
+				y, ok := eval(x.X, d+1)
+				return -y, ok
+			}
+		case *ssa.Phi:
+			if e, known := phiVal[x]; known {
+				return eval(e, d+1)
+			}
+		case *ssa.Call:
+			g := rawStaticCallee(x)
+			if g == nil || gp == nil || !gp.inMod(g) || len(g.Blocks) == 0 {
+				return 0, false
+			}
+			var na, nb ssa.Value
+			for i, arg := range x.Call.Args {
+				if i >= len(g.Params) {
+					break
+				}
+				switch who(arg) {
+				case 1:
+					na = g.Params[i]
+				case 2:
+					nb = g.Params[i]
+				}
+			}
+			if na == nil || nb == nil {
+				return 0, false
+			}
+			return simTimeCmp(g, na, nb, sign, depth+1)
+		case *ssa.BinOp:
+			var l, rr int64
+			if oa, ob := offsetOf(x.X), offsetOf(x.Y); oa != 0 && ob != 0 && oa != ob {
+				l, rr = sign, 0
+				if oa == 2 {
+					l = -sign
+				}
+			} else {
+				var ok1, ok2 bool
+				l, ok1 = eval(x.X, d+1)
+				rr, ok2 = eval(x.Y, d+1)
+				if !ok1 || !ok2 {
+					return 0, false
+				}
+			}
+			res := false
+			switch x.Op {
+			case token.EQL:
+				res = l == rr
+			case token.NEQ:
+				res = l != rr
+			case token.LSS:
+				res = l < rr
+			case token.LEQ:
+				res = l <= rr
+			case token.GTR:
+				res = l > rr
+			case token.GEQ:
+				res = l >= rr
+			default:
+				return 0, false
+			}
+			if res {
+				return 1, true
+			}
+			return 0, true
+		}
+		return 0, false
+	}
+	cur := f.Blocks[0]
+	var prev *ssa.BasicBlock
+	for steps := 0; steps < 64; steps++ {
+		for _, in := range cur.Instrs {
+			ph, isPhi := in.(*ssa.Phi)
+			if !isPhi {
+				break
+			}
+			for i, pb := range cur.Preds {
+				if pb == prev {
+					phiVal[ph] = ph.Edges[i]
+				}
+			}
+		}
+		switch t := cur.Instrs[len(cur.Instrs)-1].(type) {
+		case *ssa.Return:
+			if len(t.Results) != 1 {
+				return 0, false
+			}
+			return eval(t.Results[0], 0)
+		case *ssa.If:
+			c, ok := eval(t.Cond, 0)
+			if !ok {
+				return 0, false
+			}
+			prev = cur
+			if c != 0 {
+				cur = cur.Succs[0]
+			} else {
+				cur = cur.Succs[1]
+			}
+		case *ssa.Jump:
+			prev, cur = cur, cur.Succs[0]
+		default:
+			return 0, false
+		}
+	}
+	return 0, false
 }
